@@ -260,8 +260,9 @@ def finish(check_id, tier, seed, mod, results, wall):
     ev = {"property_id": check_id, "tier": tier, "seed": seed, "level": meta.get("level", "model_checking"),
           "coverage": cov, "assumptions": meta.get("assumptions", []), "wall_s": round(wall, 2),
           "violations": len(viol)}
-    os.makedirs(os.path.join(VERIF, "evidence"), exist_ok=True)
-    with open(os.path.join(VERIF, "evidence", f"{check_id}.json"), "w") as fh:
+    evdir = os.environ.get("VERIF_EVIDENCE_DIR") or os.path.join(VERIF, "evidence")  # tools/seedrun.sh points this at a scratch directory
+    os.makedirs(evdir, exist_ok=True)
+    with open(os.path.join(evdir, f"{check_id}.json"), "w") as fh:
         json.dump(ev, fh, indent=1, default=str)
     print(f"{check_id} {tier}: cases={len(results)} obligations={nob} discharged={ndis} violations={len(viol)} "
           f"known={len(known)} inconclusive={len(inconc)} errors={len(errors)} solver_s={solver_s:.1f} wall_s={wall:.1f}")
